@@ -128,7 +128,8 @@ def exec_real(gt, op) -> str:
         elif k == "sd":
             gt.scroll_down(op["n"])
         elif k == "write":
-            gt.write(bytes.fromhex(op["hex"]))
+            data = bytes.fromhex(op["hex"])
+            gt.write(data.decode("utf-8") if op.get("str") else data)     # `str`: the text form of write()
         elif k == "writecmd":
             gt.writecmd(bytes.fromhex(op["hex"]))
         elif k == "cl":
@@ -574,7 +575,21 @@ WRITE_VOCAB = [
     b"a", b"hello", b"\r", b"\n", b"\r\n", b"\x1bE", b"\x1bD", b"\x1bM", b"\x1b7", b"\x1b8", b"\x1b[s", b"\x1b[u",
     b"\x1b[0m", b"\x1b[38;5;7m", b"\x1b[H", b"\x1b[r", b"\x1b[2K", b"\xc3\xa9", b"\xe2\x82\xac", b"\x1b[A", b"\x1b[B",
     b"\x1b[C", b"\x1b[D", b"\x1b_Ga=d\x1b\\",
+    # printable text whose cell count differs from its code point count (combining marks of the placeholder table,
+    # which every conforming terminal — and Spec.Term — treats as zero-width)
+    "e\u0305".encode(), "ab\u030d\u0305c".encode(), "x\u0305\u030d\u030e".encode(), "o\u033d\u0346k".encode(),
 ]
+
+
+def gen_text(rng, w):
+    """Printable text (no control characters) shorter than the line, with combining marks on some letters."""
+    n = rng.randint(1, max(1, min(w - 1, 6)))
+    out = ""
+    for _ in range(n):
+        out += rng.choice("abcxyz")
+        for _ in range(rng.choice([0, 0, 1, 1, 2])):
+            out += rng.choice("\u0305\u030d\u030e\u0310\u0312\u033d\u033e\u033f\u0346")
+    return out.encode()
 
 
 def gen_write(rng, w, h):
@@ -688,7 +703,16 @@ def gen_op(rng, w, h, k):
     if r < 0.52:
         return {"op": rng.choice(["su", "sd"]), "n": rng.choice(V)}
     if r < 0.62:
-        return {"op": rng.choice(["write", "write", "writecmd"]), "hex": gen_write(rng, w, h).hex()}
+        if rng.random() < 0.3:
+            return {"op": "write", "hex": gen_text(rng, w).hex(), "str": True}
+        o = {"op": rng.choice(["write", "write", "writecmd"]), "hex": gen_write(rng, w, h).hex()}
+        if o["op"] == "write" and rng.random() < 0.5:
+            try:
+                bytes.fromhex(o["hex"]).decode("utf-8")
+                o["str"] = True
+            except UnicodeDecodeError:
+                pass
+        return o
     if r < 0.66:
         return {"op": rng.choice(["cl", "cs"])}
     if r < 0.72:
@@ -755,6 +779,11 @@ def structured(w, h):
                             {"op": "su", "n": 0}, {"op": "getposT"}])
     case("reset-by-scrolling", [{"op": "write", "hex": b"abc\r\n".hex()}, {"op": "reset", "rbs": True}, {"op": "mv", "right": 2, "down": 1},
                                 {"op": "reset", "rbs": False}, {"op": "mv", "right": 1}])
+    for txt in ("a\u0305b", "e\u0305\u030d", "abc", "\u00e9t\u00e9"):
+        if len(txt) < w:
+            case("write-str-text", [{"op": "reset", "rbs": False}, {"op": "mva", "col": 0, "row": min(2, h - 1)},
+                                    {"op": "write", "hex": txt.encode().hex(), "str": True}, {"op": "getposT"}, {"op": "mv", "right": 1},
+                                    {"op": "getpos"}, {"op": "write", "hex": txt.encode().hex(), "str": True}, {"op": "mv", "down": 1}])
     case("nel-after-write", [{"op": "write", "hex": b"ab\x1bE".hex()}, {"op": "getposT"}, {"op": "mv", "up": 1}, {"op": "writecmd", "hex": b"\x1bE".hex()},
                              {"op": "put", "id": ID, "pid": 0, "rows": 1, "cols": 1, "C": None}])
     # forced-placeholder puts: every branch
